@@ -623,7 +623,7 @@ def n_truth(x):
     cdef bint b = x
     r.append(b)
     return r
-#@ NF NF
+#@ NB NB
 def n_binop_obj(a, b):
     r = []
     for g in (lambda: a + b, lambda: a - b, lambda: a * b, lambda: a // b, lambda: a % b, lambda: a / b, lambda: a & b, lambda: a | b, lambda: a ^ b,
@@ -776,7 +776,7 @@ class PySub(Ext):
 
 DEL_LOG = []
 cdef class WithDealloc:
-    cdef object tag
+    cdef public object tag
     def __init__(self, tag): self.tag = tag
     def __dealloc__(self): DEL_LOG.append(("dealloc", self.tag))
 class WithDel(WithDealloc):
@@ -887,16 +887,6 @@ def e_nested_handlers(k):
         out.append(type(sys.exc_info()[1]).__name__)
     out.append(sys.exc_info()[1] is None)
     return out
-#@ EX
-def e_except_match_errors(k):
-    try:
-        try:
-            raise ValueError("v")
-        except (5 if k == 0 else KeyError, "s" if k == 1 else IndexError):
-            return "matched"
-    except BaseException as e:
-        return type(e).__name__
-
 # ---- generators / coroutines: Coroutine.c, AsyncGen.c
 def _gen(n, log):
     try:
@@ -1178,7 +1168,8 @@ def x_tables(rng, quick):
           Py("collections.deque([1, 2, 9])"), Py("bytearray(b'ab')"), Py("{'k': 1, 'z': 2}"), Py("{1: 'a', 2: 'b', 3: 'c'}"), Py("{}"), Py("{5: 6}"), Py("D2({'k': 0})"),
           Py("collections.OrderedDict(k=1)"), Py("Pt(0, 0)"), Py("Pt(2, 2)"), Py("Pt(1, 2)"), Py("c39x.Ext(4)"), Py("c39x.PySub(5)"), Py("Seq(1)"), Py("L2([9])"),
           Py("T2((1, 2, 3))"), Py("I2(-3)"), Py("F2(1.0)"), Py("S2('abc')"), Py("object()") if False else Py("NoOps()")]
-    tables = dict(S=S, I=I, C=C, B=B, L=L, LO=LO, IO=IO, D=D, DO=DO, K=K, F=F, O=O, OO=OO, IT=IT, NS=NS, N=N, FL=FL, NF=NF, EX=EX, MO=MO)
+    NB = [x for x in NF if not isinstance(x, str)]        # (no sequence repetition by 2**30)
+    tables = dict(NB=NB, S=S, I=I, C=C, B=B, L=L, LO=LO, IO=IO, D=D, DO=DO, K=K, F=F, O=O, OO=OO, IT=IT, NS=NS, N=N, FL=FL, NF=NF, EX=EX, MO=MO)
     enc = {k: [ev(x) for x in v] for k, v in tables.items()}
     # rows tables
     enc["WO"] = [[ev(a), ev(b), ev(c)] for a in (False, True) for b in (False, True) for c in (False, True)]
